@@ -1420,3 +1420,60 @@ Proof.
   destruct (HALF <=? r_pos l) eqn:HB; [lia|]. rewrite CU, Z.eqb_refl. cbn [negb]. rewrite MD. fold lost.
   split; [apply good_add_bad; apply good_set_sub; [exact G|apply rec_good_new]|right; apply Inv_bad; exact I'].
 Qed.
+
+(* ---- ~subscriber ---- *)
+Lemma live_obj_put_dead e s o na pa q : s_live o = false ->
+  live_obj (mkT q (put (objs e) s (Some o)) na pa) s = None.
+Proof. intros L. unfold live_obj. cbn [objs]. rewrite get_put_same, L. reflexivity. Qed.
+
+Lemma step_leave e m s : good_b m = true -> m_viol m = false -> Inv e m ->
+  R (fst (step e (OLeave s))) (mon_step m (OLeave s) (snd (step e (OLeave s)))).
+Proof.
+  intros G V I. unfold step, step_gen.
+  destruct (free_obj e s) as [o|] eqn:F.
+  2:{ unfold mon_step. rewrite V. cbn. apply R_same; assumption. }
+  pose proof (free_live _ _ _ F) as L.
+  destruct (inv_rec _ _ _ _ I L) as (r & Gr & LV).
+  pose proof (i_sub _ _ I s o r L Gr) as (U & SB & MD & VM & KK & CU & RG & AW & PO).
+  assert (HL : (s_h o < length (regs (pq e)))%nat) by (apply rget_used_lt; exact U).
+  pose proof (good_rec _ _ _ G Gr) as GR.
+  cbn [fst snd]. unfold mon_step. rewrite V. cbn [o_st ok3 Z.eqb negb]. rewrite Gr.
+  destruct (m_pc r) eqn:PC; try (apply R_viol; exact G); rewrite LV; cbn [negb].
+  all: split; [apply good_set_sub; [exact G|exact GR]|right].
+  all: set (l := rget (regs (pq e)) (s_h o)) in *.
+  all: set (l' := mkReg (next_free (pq e)) (r_sub l) (r_awt l) false (r_kicked l)).
+  all: assert (NH : forall k o', live_obj e k = Some o' -> s <> k -> s_h o' <> s_h o)
+         by (intros k o' L' N E; apply N; symmetry; apply (i_inj _ _ I k s o' o L' L E)).
+  all: unfold leave_lk; fold l; fold l'.
+  all: constructor; cbn [pq objs nawt palive regs next_free qd qpos closed minl maxl set_sub m_log m_closed m_subs m_min m_max].
+  all: try (eapply Gq_same; [apply (i_g _ _ I)|reflexivity..]).
+  all: try apply (i_mm _ _ I).
+  all: try apply (i_cl _ _ I).
+  all: try (destruct (i_fl _ _ I) as (fl & FL); exists (s_h o :: fl);
+            assert (NI : ~ In (s_h o) fl) by (intros K; pose proof (freelist_unused _ _ _ FL _ K); fold l in H; congruence);
+            constructor; [rewrite length_set_nth; exact HL|rewrite rget_set_same by exact HL; reflexivity|exact NI|];
+            rewrite rget_set_same by exact HL; cbn [r_pos l']; apply freelist_set_other; assumption).
+  all: try (apply awt_same_keep; [exact HL|apply (i_awt _ _ I)|apply (i_awt _ _ I)|right; reflexivity]).
+  all: try (intros k; destruct (Nat.eq_dec s k) as [<-|N];
+            [rewrite get_put_same; rewrite get_put_same; split; discriminate
+            |rewrite get_put_other by exact N; rewrite get_put_other by exact N; apply (i_none _ _ I)]).
+  all: try (intros k o1 r1 G1 G2; destruct (Nat.eq_dec s k) as [<-|N];
+            [rewrite get_put_same in G1; rewrite get_put_same in G2; injection G1 as <-; injection G2 as <-; reflexivity
+            |rewrite get_put_other in G1 by exact N; rewrite get_put_other in G2 by exact N; apply (i_live _ _ I k); assumption]).
+  all: try (intros k o1 r1 L1 G2; destruct (Nat.eq_dec s k) as [<-|N];
+            [rewrite live_obj_put_dead in L1 by reflexivity; discriminate|];
+            rewrite live_obj_put_other in L1 by exact N; rewrite get_put_other in G2 by exact N;
+            rewrite rget_set_other by (intros E; apply (NH k o1 L1 N); symmetry; exact E);
+            apply (i_sub _ _ I k); assumption).
+  all: try (intros s1 s2 o1 o2 L1 L2 E;
+            destruct (Nat.eq_dec s s1) as [<-|N1]; [rewrite live_obj_put_dead in L1 by reflexivity; discriminate|];
+            destruct (Nat.eq_dec s s2) as [<-|N2]; [rewrite live_obj_put_dead in L2 by reflexivity; discriminate|];
+            rewrite live_obj_put_other in L1 by exact N1; rewrite live_obj_put_other in L2 by exact N2;
+            apply (i_inj _ _ I s1 s2 o1 o2); assumption).
+  all: try (intros k UK; destruct (Nat.eq_dec (s_h o) k) as [<-|N];
+            [rewrite rget_set_same in UK by exact HL; discriminate|];
+            rewrite rget_set_other in UK by exact N;
+            destruct (i_own _ _ I k UK) as (s' & o' & L' & E'); exists s', o'; split; [|exact E'];
+            assert (s <> s') by (intros <-; rewrite L in L'; injection L' as <-; congruence);
+            rewrite live_obj_put_other by assumption; exact L').
+Qed.
